@@ -4,7 +4,8 @@
    lookup (names before symbols), make_quantity / convert_quantity, the export writer and
    parse_currency_data (with repair R1) over exact rationals.  Statements only.
 
-   Domain: EVERY table with positive rates, EVERY set of already registered unit names and
+   Domain: EVERY table with positive rates, EVERY reduction of names to identifiers (units.py's
+   NFKD/ASCII `cname`, external), EVERY set of already registered unit names and
    symbols, every amount in Q, every identifier.  Floats: the implementation computes the same
    expressions in binary64 (at most 4 roundings per conversion, a triangle at most 8); that the
    results agree within 1e-9 relative is checked by the correspondence (harness/props/c20.py)
@@ -14,30 +15,30 @@ From Ka Require Import Model.Currency Proofs.CurrencyProofs Model.Config Proofs.
 Local Open Scope string_scope.
 
 (* x A to B = x * rate(B) / rate(A), with the rates of the table rows A and B resolve to *)
-Theorem C20_rate : forall pn ps t base st,
-  rates_positive t -> register_currencies pn ps t base = POk st ->
+Theorem C20_rate : forall nn pn ps t base st,
+  rates_positive t -> register_currencies nn pn ps t base = POk st ->
   forall x a b ua ub,
     lookup_unit st a = RCash ua -> lookup_unit st b = RCash ub ->
     In (cu_row ua) t /\ In (cu_row ub) t /\
     exists r, convert st x a b = Some r /\ r == x * c_rate (cu_row ub) / c_rate (cu_row ua).
 Proof. exact conversion_rate. Qed.
 
-Theorem C20_roundtrip : forall pn ps t base st,
-  rates_positive t -> register_currencies pn ps t base = POk st ->
+Theorem C20_roundtrip : forall nn pn ps t base st,
+  rates_positive t -> register_currencies nn pn ps t base = POk st ->
   forall x a b y, convert st x a b = Some y -> exists x', convert st y b a = Some x' /\ x' == x.
 Proof. exact conversion_roundtrip. Qed.
 
-Theorem C20_triangle : forall pn ps t base st,
-  rates_positive t -> register_currencies pn ps t base = POk st ->
+Theorem C20_triangle : forall nn pn ps t base st,
+  rates_positive t -> register_currencies nn pn ps t base = POk st ->
   forall x a b c y z, convert st x a b = Some y -> convert st y b c = Some z ->
     exists z', convert st x a c = Some z' /\ z' == z.
 Proof. exact conversion_triangle. Qed.
 
 (* Two registries built from the same table under two bases resolve every identifier to the same
    row (or both to none) and give equal conversions. *)
-Theorem C20_base_independent : forall pn ps t b1 b2 st1 st2,
+Theorem C20_base_independent : forall nn pn ps t b1 b2 st1 st2,
   rates_positive t ->
-  register_currencies pn ps t b1 = POk st1 -> register_currencies pn ps t b2 = POk st2 ->
+  register_currencies nn pn ps t b1 = POk st1 -> register_currencies nn pn ps t b2 = POk st2 ->
   forall x a b,
     match convert st1 x a b, convert st2 x a b with
     | Some r1, Some r2 => r1 == r2
@@ -47,15 +48,15 @@ Theorem C20_base_independent : forall pn ps t b1 b2 st1 st2,
 Proof. exact base_independent. Qed.
 
 (* Every base present in the table yields a registry: the loop never raises. *)
-Theorem C20_registration_total : forall pn ps t base,
+Theorem C20_registration_total : forall nn pn ps t base,
   rates_positive t -> has_currency base t = true ->
   exists st b, find (fun c => String.eqb (c_sym c) base) t = Some b /\ In b t
-            /\ register_currencies pn ps t base = POk st /\ cash_ok (c_rate b) t st.
+            /\ register_currencies nn pn ps t base = POk st /\ cash_ok (c_rate b) t st.
 Proof. exact registration_never_raises. Qed.
 
 (* The two dictionaries never receive a key twice, so an identifier names at most one unit. *)
-Theorem C20_keys_unique : forall pn ps t base st,
-  NoDup pn -> NoDup ps -> register_currencies pn ps t base = POk st -> keys_ok st.
+Theorem C20_keys_unique : forall nn pn ps t base st,
+  NoDup pn -> NoDup ps -> register_currencies nn pn ps t base = POk st -> keys_ok st.
 Proof. exact registry_keys_unique. Qed.
 
 (* Export then parse is the identity on tables whose symbols and names contain no ',' and no
@@ -91,7 +92,7 @@ Proof. exact builtin_reachable_true. Qed.
 Definition ex_table : list cur := [("usd", "usdollar", 1); ("eur", "euro", 9 # 10); ("gbp", "britishpound", 4 # 5);
                                     ("cup", "cubanpeso", 24); ("xyz", "euro", 3)].
 Example C20_witness :
-  match register_currencies pre_names pre_syms ex_table "eur", register_currencies pre_names pre_syms ex_table "gbp" with
+  match register_currencies ascii_alnum_only pre_names pre_syms ex_table "eur", register_currencies ascii_alnum_only pre_names pre_syms ex_table "gbp" with
   | POk s1, POk s2 =>
       (* 90 usd to gbp = 90 * 0.8 / 1 under both bases; `$` and `dollar` are usd; `cup` stays the
          volume unit and the peso is reachable by name; the second `euro` is reachable as xyz *)
